@@ -57,6 +57,13 @@ func init() {
 		armAlso["*ast."+a] = append(armAlso["*ast."+a], "C11")
 	}
 
+	// forms that build a closure look each free variable of the child up in the parent's cell and free lists and end in
+	// an internal failure (SystemError, not SyntaxError) when the lookup is not where the symbol table said: for which
+	// scopes the lookup is made, and under which condition it fails, is C11's business as well
+	for _, a := range []string{"FunctionDef", "Lambda", "ClassDef", "ListComp", "SetComp", "DictComp", "GeneratorExp"} {
+		armAlso["*ast."+a] = append(armAlso["*ast."+a], "C11")
+	}
+
 	reg := func(id, prop, doc string, floor int) {
 		register(&Rule{ID: id, Prop: prop, Floor: floor, Doc: doc, Run: func(c *Ctx, r *Rep) { runEmitSpec(c, r, prop) }})
 	}
@@ -67,7 +74,7 @@ func init() {
 	reg("C19.R5", "C19", "import code schemes: one IMPORT_NAME per alias/module with (level, fromlist) constants, IMPORT_FROM + store per name, final POP_TOP, IMPORT_STAR; dotted `import a.b` binds a, `import a.b as c` walks attributes"+how, 2)
 	reg("C20.R2", "C20", "echo protocol (compiler half): PRINT_EXPR only for expression statements of the interactive top level (interactive && depth<=1), POP_TOP otherwise, nothing for constant expression statements"+how, 1)
 	reg("C03.R11", "C03", "closure construction: the forms that make a function object from a code object with free variables load one cell per free variable of the child, numbered by the parent's own cell and free variable lists, then the code, the qualified name and MAKE_CLOSURE"+how, 5)
-	reg("C11.R15", "C11", "statement and expression forms whose compilation can reject the program (break/continue outside a loop or under finally, return/yield outside a function, misplaced starred expression, global/nonlocal conflicts): every path either emits the reviewed scheme or raises the reviewed SyntaxError — none ends in an internal failure"+how, 3)
+	reg("C11.R15", "C11", "statement and expression forms whose compilation can reject the program (break/continue outside a loop or under finally, return/yield outside a function, misplaced starred expression, global/nonlocal conflicts; and the closure-building forms, whose free-variable lookup ends in an internal failure for a scope class it does not expect): every path either emits the reviewed scheme or raises the reviewed SyntaxError — none ends in an internal failure"+how, 3)
 	reg("C12.R8", "C12", "scope prologues and epilogues (compileAst per scope kind): module and class bodies go through docString, the interactive top level does not; class bodies store __module__/__qualname__ first and return the __class__ cell when needed; comprehensions load their iterator argument, build the result and return it; every scope ends in RETURN_VALUE exactly once (implicit `return None` only when the stream does not already end in one)"+how, 8)
 	register(&Rule{ID: "C12.R5", Prop: "C12", Floor: 40,
 		Doc: "block and loop-stack balance in the emitter: on every non-panicking path of every node form, c.loops.Push/Pop are balanced (also inside each loop iteration) and every SETUP_LOOP/EXCEPT/FINALLY/WITH emission is matched by exactly one POP_BLOCK",
